@@ -809,3 +809,90 @@ Section History.
     rewrite M in C, D. auto.
   Qed.
 End History.
+
+(* ------------------------------------------------------------------ *)
+(** ** end-to-end delivery: every message list, every chunking *)
+
+Lemma ensure_space_flags c c1 :
+  ensure_space c = Some c1 -> rdy_r c1 = rdy_r c /\ int_r c1 = int_r c.
+Proof.
+  unfold ensure_space. destruct (avail_space (front c) =? 0).
+  - destruct (grow_size c (cap (front c))); [|discriminate]. intros H; injection H as <-. auto.
+  - intros H; injection H as <-. auto.
+Qed.
+
+Lemma readable_loop_progress fuel : forall c s count c' s' r,
+  rdy_r c = true -> ineof s = false ->
+  readable_loop fuel c s count = (c', s', r) ->
+  length (inq s') <= length (inq s) /\ (rdy_r c' = false -> inq s' = []).
+Proof.
+  induction fuel as [|f IH]; intros c s count c' s' r Hr He H; cbn [readable_loop] in H.
+  { injection H as <- <- <-. split; [lia|congruence]. }
+  destruct (ensure_space c) as [c1|] eqn:Ee.
+  2:{ injection H as <- <- <-. unfold_setters. split; [lia|congruence]. }
+  destruct (ensure_space_flags c c1 Ee) as (R1 & _).
+  destruct (inq s) as [|x xs] eqn:Eq.
+  - rewrite He in H. injection H as <- <- <-. rewrite Eq. auto.
+  - destruct (fill_bytes (front c1) (x :: xs)) as [fb n] eqn:Ef.
+    apply IH in H; [|unfold_setters; congruence|cbn [ineof]; exact He].
+    cbn [inq] in H. destruct H as (L & Z). split; [|exact Z].
+    rewrite skipn_length in L. lia.
+Qed.
+
+Lemma readable_loop_first fuel c s count c' s' r :
+  rdy_r c = true -> ineof s = false ->
+  inq s <> [] -> 0 < avail_space (front c) ->
+  readable_loop (S fuel) c s count = (c', s', r) ->
+  length (inq s') < length (inq s).
+Proof.
+  intros Hr He Hne Hsp H. cbn [readable_loop] in H.
+  unfold ensure_space in H.
+  destruct (avail_space (front c) =? 0) eqn:E0; [apply Nat.eqb_eq in E0; lia|].
+  destruct (inq s) as [|x xs] eqn:Eq; [congruence|].
+  destruct (fill_bytes (front c) (x :: xs)) as [fb n] eqn:Ef.
+  pose proof (fill_bytes_cnt (front c) (x :: xs)) as Hn. rewrite Ef in Hn. cbn [snd] in Hn.
+  apply readable_loop_progress in H; [|unfold_setters; exact Hr|cbn [ineof]; exact He].
+  cbn [inq] in H. destruct H as (L & _). rewrite skipn_length in L.
+  cbn [length] in *. lia.
+Qed.
+
+(** [read_message] never touches the READABLE readiness bit *)
+Lemma read_message_rdy decodable c : rdy_r (fst (read_message decodable c)) = rdy_r c.
+Proof.
+  unfold read_message, try_read, read_fallthrough, try_shrink_front.
+  repeat match goal with
+         | |- context [if ?b then _ else _] => destruct b
+         | |- context [match grow_size ?a ?b with _ => _ end] => destruct (grow_size a b)
+         end; reflexivity.
+Qed.
+
+Definition stream (ps : list (list N)) : list N := concat (map frame ps).
+
+(** every prefix of a well-formed stream is some complete frames followed by
+    a strict prefix of the next frame *)
+Lemma prefix_split : forall ps w z,
+  w ++ z = stream ps ->
+  exists ps1 ps2 tail,
+    ps = ps1 ++ ps2 /\ w = stream ps1 ++ tail /\ tail ++ z = stream ps2 /\
+    (ps2 = [] -> tail = []) /\
+    (forall q ps2', ps2 = q :: ps2' -> length tail < length (frame q)).
+Proof.
+  induction ps as [|p ps IH]; intros w z H; unfold stream in *; cbn [map concat] in *.
+  - apply app_eq_nil in H. destruct H as (-> & ->).
+    exists [], [], []. repeat split; auto. intros; discriminate.
+  - destruct (Nat.lt_ge_cases (length w) (length (frame p))) as [L|L].
+    + exists [], (p :: ps), w. cbn [map concat app]. repeat split; auto; [discriminate|].
+      intros q ps2' E; injection E as <- <-. exact L.
+    + assert (Hw : w = frame p ++ skipn (length (frame p)) w).
+      { rewrite <- (firstn_skipn (length (frame p)) w) at 1. f_equal.
+        assert (F : firstn (length (frame p)) (w ++ z) = firstn (length (frame p)) (frame p ++ concat (map frame ps))) by (rewrite H; reflexivity).
+        rewrite firstn_app in F. replace (length (frame p) - length w) with 0 in F by lia.
+        rewrite firstn_O, app_nil_r in F. rewrite F.
+        rewrite firstn_app, Nat.sub_diag, firstn_O, app_nil_r, firstn_all. reflexivity. }
+      set (w' := skipn (length (frame p)) w) in *.
+      assert (H' : w' ++ z = concat (map frame ps)).
+      { rewrite Hw, <- app_assoc in H. apply app_inv_head in H. exact H. }
+      destruct (IH w' z H') as (ps1 & ps2 & tail & E1 & E2 & E3 & E4 & E5).
+      exists (p :: ps1), ps2, tail. cbn [map concat app].
+      repeat split; auto; [rewrite E1; reflexivity|rewrite Hw, E2, app_assoc; reflexivity].
+Qed.
